@@ -629,7 +629,7 @@ class Executor(ExprMixin, CallMixin):
                 elif isinstance(sub, ast.Call):
                     if isinstance(sub.func, ast.Attribute):
                         if not self._contracted_pure_method(sub.func, st):
-                            name_ref(sub.func.value)
+                            arg_ref(sub.func.value)      # `obj.field.m()` mutates the field's object, not obj
                     for a in list(sub.args) + [k.value for k in sub.keywords]:
                         arg_ref(a)
                 elif isinstance(sub, ast.AugAssign):
